@@ -194,9 +194,14 @@ func (r *ingressController) buildCanaryIngress(stableIngress *netv1.Ingress) *ne
 				HTTP: &netv1.HTTPIngressRuleValue{},
 			},
 		}
+		// a rule without an http section sends everything to the default backend: nothing to copy
+		if stableRule.HTTP == nil {
+			continue
+		}
 		// Update all backends pointing to the stableService to point to the canaryService now
 		for ip := 0; ip < len(stableRule.HTTP.Paths); ip++ {
-			if stableRule.HTTP.Paths[ip].Backend.Service.Name == r.conf.StableService {
+			// resource backends have no Service
+			if svc := stableRule.HTTP.Paths[ip].Backend.Service; svc != nil && svc.Name == r.conf.StableService {
 				hasStableServiceBackendRule = true
 				if stableRule.Host != "" {
 					hosts.Insert(stableRule.Host)
